@@ -494,6 +494,20 @@ func TestVerifC08(t *testing.T) {
 			add(false, hdJoinOp(1, 1, 1), hdJoinOp(2, 1, 2), incall, offer(1, "video", 3), offer(1, "screen", 0), perms(1))                 // everything withdrawn at once
 			add(false, hdJoinOp(1, 1, 1), hdJoinOp(2, 1, 2), incall, offer(1, "audio", 1), offer(1, "video", 2), perms(1, 1), perms(1, 0)) // audio only, then video only
 			add(false, hdJoinOp(1, 1, 1), hdJoinOp(2, 1, 2), incall, offer(1, "video", 3), perms(1, 3), perms(1, 0, 1), perms(1, 2), offer(1, "video", 1), offer(1, "screen", 0))
+			// every media combination of a publisher, published under each permission set that allows it, then every smaller set
+			// (each medium needs ITS permission: audio+video with only one of the two left must go), granted again in between
+			for _, start := range [][]int{{0, 1}, {3}, {0, 1, 3}} {
+				for _, pm := range []struct {
+					stream string
+					media  int
+				}{{"video", 3}, {"video", 2}, {"video", 1}, {"audio", 1}} {
+					ops := []hdOp{joinP(1, 1, 1, start...), hdJoinOp(2, 1, 2), incall}
+					for _, red := range [][]int{{1}, {0}, {2}, {}, {1, 2}, {0, 4}} {
+						ops = append(ops, offer(1, pm.stream, pm.media), perms(1, red...), perms(1, start...))
+					}
+					add(false, ops...)
+				}
+			}
 			// published before joining, the room does not grant it; an empty permission list in the join reply
 			add(false, offer(1, "video", 3), offer(1, "screen", 0), joinP(1, 1, 1, 4), hdJoinOp(2, 1, 2))
 			add(false, offer(1, "video", 3), joinP(1, 1, 1), offer(1, "video", 3), offer(1, "screen", 0), hdOp{K: "transient", C: 1, Tk: "set", Key: 1, Tag: 1},
